@@ -418,8 +418,17 @@ pub fn sizes_reserve(kind: u8, fam: u8, n0: usize, cap: usize, ns: u8, len: usiz
     } else {
         s.t.try_reserve(n).is_ok()
     };
+    // what the request amounts to: the amortised size incl. the 16-byte header must fit the allocator
+    let need = match len0.checked_add(n) {
+        None => usize::MAX,
+        Some(x) => {
+            let amort = len0 + len0 / 2;
+            if x > amort { x } else { amort }
+        }
+    };
+    let servable = need <= shim::LIMIT - 16;
     if ok {
-        assert!(class != 2, "[C06] reserve(n) succeeded although the allocator cannot serve n bytes");
+        assert!(servable || (len0.checked_add(n).is_some() && cap0 >= len0 + n), "[C06] reserve(n) succeeded although the allocator cannot serve n bytes");
         assert!(len0.checked_add(n).is_some(), "[C06] reserve(n) succeeded although len+n overflows usize");
         assert!(s.t.capacity() >= len0 + n, "[C06] capacity() < len()+n after a successful reserve(n)");
         assert!(s.t.len() == len0, "[C06] reserve changed len()");
@@ -429,7 +438,7 @@ pub fn sizes_reserve(kind: u8, fam: u8, n0: usize, cap: usize, ns: u8, len: usiz
         }
         kani::cover!(n > (1 << 30), "huge reserve granted");
     } else {
-        assert!(class == 2, "[C06] reserve(n) failed although the request could have been served");
+        assert!(!servable, "[C06] reserve(n) failed although the request could have been served");
         assert!(s.t.capacity() == cap0 && s.t.is_heap_allocated() == heap0, "[C06] failed reserve changed capacity/storage");
         if was_inline {
             assert!(s.t.as_str().as_ptr() == (&s.t as *const LeanString as *const u8), "[C06] failed reserve moved the text");
@@ -440,7 +449,7 @@ pub fn sizes_reserve(kind: u8, fam: u8, n0: usize, cap: usize, ns: u8, len: usiz
     }
     check_unchanged(&s.a, &s.ma, &sa);
     check_unchanged(&s.b, &s.mb, &sb);
-    if class == 1 {
+    if class == 1 || (class == 2 && ok) {
         // granted with a symbolic capacity: drop without reading content through that block
         let St { t, a, b, .. } = s;
         if tf {
